@@ -33,7 +33,9 @@ RULE = ("level A cases = (stored user, stored password plain|{SHA}) x Authorizat
         "and several extensions of the right credentials, extra colons, non-ASCII, oversized (64 KiB), doubled headers, "
         "leading/trailing spaces, the stored {SHA} string itself as password; level B = those header classes x method x "
         "path (every handler prefix, odd-case, percent-encoded, unmatched) x HTTP version x (inet, unix) x (auth on, "
-        "empty username, no auth). Non-trivial = an Authorization line is present; distinct by (config, request)")
+        "empty username, no auth); level B-multi = 8 configurations of two or three server sections (different users, same "
+        "user / different passwords, authenticated + open, {SHA} entries, empty username) parsed by the real parser, every "
+        "server queried with its own and with every other section's credentials and their cross combinations. Non-trivial = an Authorization line is present; distinct by (config, request)")
 TECHNIQUE = ("Lean 4 theorems over a model whose guards, status codes, wrapper table and dispatch order are regenerated "
              "from auth_handler.py / http.py / http_server.py; differential correspondence against the real handler "
              "objects and the real channel dispatch")
@@ -549,6 +551,150 @@ def run_level_b(ctx):
     ctx.correspond('auth-dispatch', cases, impls)
 
 
+MULTI = [
+    # (kind, username, password, sha) per section; first of a kind is unnamed, later ones get a :name
+    [('inet', 'alice', 'pwA', False), ('unix', 'bob', 'pwB', False)],
+    [('inet', 'user', 'one', False), ('unix', 'user', 'two', False)],
+    [('inet', 'user', 'one', True), ('unix', 'user', 'two', True)],
+    [('inet', 'user', 'secret', False), ('unix', None, None, False)],
+    [('inet', None, None, False), ('unix', 'user', 'secret', True)],
+    [('inet', 'a', '1', False), ('inet', 'b', '2', True), ('unix', 'c', '3', False)],
+    [('inet', None, None, False), ('unix', 'u1', 'same', False), ('unix', 'u2', 'same', False)],
+    [('inet', 'user', 'secret', False), ('unix', '', 'x', False)],
+]
+
+
+def build_multi(ctx, sections):
+    """several server sections through the real parser and the real make_http_servers.
+    returns [(index in options.server_configs, kind, (username, stored, plain password), hsrv, log, wrapped)]"""
+    from supervisor.options import ServerOptions
+    from supervisor.tests.base import DummyOptions, DummySupervisor, DummyRPCInterfaceFactory
+    from supervisor.http import make_http_servers, supervisor_auth_handler
+    import io
+    text, by_name, seen = '[supervisord]\n', {}, {}
+    for kind, user, pw, sha in sections:
+        k = seen.get(kind, 0); seen[kind] = k + 1
+        name = '%s_http_server' % kind + ('' if k == 0 else ':s%d' % k)
+        stored = None if pw is None else stored_of(pw, sha)
+        by_name[name] = (user, stored, pw)
+        text += '[%s]\n' % name
+        if kind == 'inet':
+            probe = socket.socket(); probe.bind(('127.0.0.1', 0)); port = probe.getsockname()[1]; probe.close()
+            text += 'port=127.0.0.1:%d\n' % port
+        else:
+            text += 'file=%s\n' % os.path.join(ctx.scratch, 'm-%d.sock' % len(os.listdir(ctx.scratch)))
+            open(os.path.join(ctx.scratch, 'm-%d.mark' % len(os.listdir(ctx.scratch))), 'w').close()
+        if user is not None:
+            text += 'username=%s\n' % user
+        if stored is not None:
+            text += 'password=%s\n' % stored
+    o = ServerOptions()
+    o.configfile = io.StringIO(text)
+    try:
+        o.realize(args=[])
+    except SystemExit:
+        from framework import Infra
+        raise Infra('the parser rejected the generated server sections: %r' % text)
+    configs = list(o.server_configs)
+    if sorted(c['section'] for c in configs) != sorted(by_name):
+        ctx.violation('server-section-lost', 'parsed sections %r, configured %r' % ([c['section'] for c in configs], sorted(by_name)),
+                      {'level': 'B', 'config': text})
+    for c in configs:
+        want = by_name.get(c['section'])
+        if want is not None and (c['username'], c['password']) != want[:2]:
+            ctx.violation('credentials-altered-by-parser', 'section %s: configured %r, make_http_servers receives %r'
+                          % (c['section'], want[:2], (c['username'], c['password'])), {'level': 'B', 'config': text})
+    options = DummyOptions()
+    options.server_configs = configs
+    options.rpcinterface_factories = [('dummy', DummyRPCInterfaceFactory, {})]
+    servers = make_http_servers(options, DummySupervisor())
+    out = []
+    for i, (cfg, hsrv) in enumerate(servers):
+        log, wrapped = [], {}
+        for k, h in enumerate(hsrv.handlers):
+            if isinstance(h, supervisor_auth_handler):
+                name = VAR_OF_CLASS.get(h.handler.__class__.__name__, h.handler.__class__.__name__)
+                h.handler = Rec(h.handler, name, log)
+                wrapped[name] = True
+            else:
+                name = VAR_OF_CLASS.get(h.__class__.__name__, h.__class__.__name__)
+                hsrv.handlers[k] = Rec(h, name, log)
+                wrapped[name] = False
+        out.append((i, cfg['section'], by_name.get(cfg['section'], (cfg['username'], cfg['password'], None)), hsrv, log, wrapped))
+    return out, text
+
+
+def run_level_b_multi(ctx):
+    """several sections with different credentials: each server must honour its own section only"""
+    cases, impls = [], []
+    paths = [('POST', '/RPC2'), ('GET', '/logtail/proc'), ('GET', '/index.html'), ('GET', '/images/icon.png')]
+    for sections in MULTI:
+        servers, text = build_multi(ctx, sections)
+        try:
+            creds = [s[2] for s in servers]                      # in options.server_configs order
+            secs_field = ';'.join('%s/%s' % (opt(u), opt(st)) for u, st, _ in creds)
+            ops, lines = [], []
+            for i, section, (user, stored, pw), hsrv, log, wrapped in servers:
+                auth_on = bool(user)
+                ctx.count('Bm:section:%s:%s' % (section.split('_')[0], 'auth' if auth_on else ('empty-username' if user == '' else 'open')))
+                if auth_on and not all(wrapped.values()):
+                    ctx.violation('handler-not-wrapped', 'section %s: not wrapped: %s' % (section, sorted(k for k, v in wrapped.items() if not v)),
+                                  {'level': 'B', 'config': text})
+                headers = [('absent', [])]
+                for j, (uj, stj, pwj) in enumerate(creds):
+                    if uj is None:
+                        continue
+                    headers.append(('section-%d-credentials' % j, ['Authorization: Basic ' + b64('%s:%s' % (uj, pwj))]))
+                    if user is not None and j != i:
+                        headers.append(('own-user-section-%d-password' % j, ['Authorization: Basic ' + b64('%s:%s' % (user, pwj))]))
+                        headers.append(('section-%d-user-own-password' % j, ['Authorization: Basic ' + b64('%s:%s' % (uj, pw))]))
+                        if stj is not None and stj.startswith('{SHA}'):
+                            headers.append(('section-%d-stored-string' % j, ['Authorization: Basic ' + b64('%s:%s' % (uj, stj))]))
+                headers.append(('wrong', ['Authorization: Basic ' + b64('nobody:nothing')]))
+                for method, path in paths:
+                    for label, header in headers:
+                        raw = '\r\n'.join(['%s %s HTTP/1.0' % (method, path)] + header).encode('utf-8')
+                        status, data = channel_request(hsrv, log, raw)
+                        handled = [e for e in log if e[0] == 'handle']
+                        matched = [e[1] for e in log if e[0] == 'match' and e[2]]
+                        inp = {'level': 'B', 'config': text, 'server': section, 'request': raw.decode('utf-8'), 'class': label}
+                        ctx.count('Bm:class:' + label.split('-')[0])
+                        ctx.count('Bm:status:%s' % status)
+                        ctx.case_done(('Bm', text, i, raw), True)
+                        if auth_on:
+                            own = carries_right_credentials(header, user, stored)
+                            if (handled or MARK in data) and not own:
+                                others = [creds[j][0] for j in range(len(creds)) if j != i and creds[j][0]
+                                          and carries_right_credentials(header, creds[j][0], creds[j][1])]
+                                if others:
+                                    ctx.violation('served-with-other-sections-credentials',
+                                                  '%s %s on [%s] (user %r) was served with the credentials of another section (user %r)'
+                                                  % (method, path, section, user, others[0]), inp)
+                                else:
+                                    ctx.violation('served-without-valid-credentials', '%s %s on [%s] reached %s with header class %s'
+                                                  % (method, path, section, handled and handled[0][1], label), inp)
+                            if label == 'section-%d-credentials' % i and matched and not handled:
+                                ctx.violation('valid-credentials-refused', '[%s]: its own credentials answered %s (another section\'s entry replaced them?)'
+                                              % (section, status), inp)
+                        elif user == '' and handled:
+                            ctx.violation('empty-username-disables-auth', '[%s] with an empty username serves %s %s without credentials' % (section, method, path), inp)
+                        if handled:
+                            ai = handled[0][2]
+                            line = 'status=- invoked=%s auth=%s' % (handled[0][1], '-' if ai is None else '%s:%s' % (hs(ai[0]), hs(ai[1])))
+                        else:
+                            if status is None:
+                                continue
+                            line = 'status=%s%s invoked=-' % (status, ' challenge' if b'WWW-Authenticate: Basic realm=' in data else '')
+                        ops.append('serveat i=%d secs=%s m=%s h=%s t=%s' % (i, secs_field, ','.join(matched[:1]) or '-', hdr_field(header), tables_for(header)))
+                        lines.append(line)
+            cases.append(('case auth user=N pass=N', ops))
+            impls.append(lines)
+        finally:
+            close_servers([(None, s[3], None, None) for s in servers])
+    ctx.sample({'case': 'multi-section', 'ops': [o[:200] for o in cases[0][1][1:3]], 'impl': impls[0][1:3]})
+    ctx.correspond('auth-dispatch-multi', cases, impls)
+
+
 def run_config_parse(ctx):
     """what `username=` (empty) with a password becomes (F18), through the real parser"""
     from supervisor.options import ServerOptions
@@ -568,6 +714,7 @@ def run_config_parse(ctx):
 def run(ctx):
     run_level_a(ctx)
     run_level_b(ctx)
+    run_level_b_multi(ctx)
     run_config_parse(ctx)
 
 
